@@ -199,3 +199,10 @@ Theorem C20_generated_history_one_per_epoch : forall (V : Type) (tl vl : nat -> 
     /\ (forall key f, tracked V tl vl tm vm metrics key f -> lookup V h key = Some (map f (seq 0 max_epochs)))
     /\ List.Forall (fun kv => length (snd kv) = max_epochs) h.
 Proof. exact generated_history_one_per_epoch. Qed.
+
+(* the monitor hand-off: `history` is passed to monitor.check as a copy, or no monitor class of
+   temporal.py (MonitorMinimal, Monitor1DSpatialTemporal, Monitor2DSpatialTemporal, Monitor2DSpatial)
+   operates in place on it -- facts regenerated from the source; user-written monitors are outside *)
+Theorem C20_monitors_keep_history :
+  history_handoff_is_copy = true \/ forallb (fun p => snd p) history_receivers_pure = true.
+Proof. exact monitors_keep_history. Qed.
